@@ -14,7 +14,9 @@ AKAI_FILE = ["A", "A L", "A R", "A-L", "A -R", "A.", "A..", "-A", "A+", ".", "..
              "", "A.L", "-L", "-R", "A.WAV", "A  B", "L", "R", "+L"]   # (bare channel letters: a pair whose stem is empty)
 AKAI_DIR = ["A", "A.", "A..", "-A", "A+", "A-", ".A", "#", "A+B", "A B", "0", "", ".", "..", "A  B"]
 HOSTILE = ["a", "a/b", "a\\b", "..", "../x", "/abs", ".", "", " ", "a.", "a .", "a..", "-a", '"q"', "a'b", "\x01a",
-           "a:b", "a*?", "A", "a (2)", "\xe9", "a L", "a R", " -L", " -R", "/", "<\\>", "?/?", "a.wav", "A.WAV"]
+           "a:b", "a*?", "A", "a (2)", "\xe9", "a L", "a R", " -L", " -R", "/", "<\\>", "?/?", "a.wav", "A.WAV",
+           # white-space characters other than the blank INSIDE a name (tab, vertical tab, FS, US)
+           "a\tb", "a\x0bb", "a\x1cb", "a\x1fb"]
 ABS = "@ABS@"      # replaced by an absolute path that lies in the watched scratch area
 
 
@@ -209,7 +211,7 @@ class Check(CheckBase):
     level = "exploration"
     title = "Output paths are unique, file-system safe and confined to the destination"
     rule = ("all ordered pairs (quick) / triples (thorough) of names over: 24 AKAI file names (incl. bare channel letters 'L', 'R', '+L'; all triples over {L, R, +L, +R, ' L', 'A L'} in both tiers) and 14 AKAI volume names "
-            "(punctuation, blanks, dots, names equal after sanitising, L/R forms, pair stems ending in a dot); 25 hostile ASCII names (separators, "
+            "(punctuation, blanks, dots, names equal after sanitising, L/R forms, pair stems ending in a dot); 29 hostile names (separators, white-space characters other than the blank inside a name, "
             "'..', absolute path into the watched area, quotes, control and non-ASCII characters, '(2)' forms, empty stems) as "
             "Roland sample / performance / volume names (also below the pseudo volume that collects orphan performances, with and "
             "without real volumes on the disk) and as cue TITLEs; export into <scratch>/w/deep/dest with the "
